@@ -115,7 +115,172 @@ Section HeapProofs.
   Theorem save_mutate_restore_frames : forall (R : Type) (mutate : buffer -> buffer) (observe : heap -> R) (h : heap) p,
     fst (save_mutate_restore mutate observe h p) = h.
   Proof. intros. unfold save_mutate_restore. simpl. rewrite write_write. apply write_read_id. Qed.
+
+  (** ---- a Spectrum is a pair of buffers (data, mask): the arithmetic operators ---- *)
+  Variable op : buffer -> buffer.
+
+  Lemma read_app_old : forall (h : heap) l a, a < length h -> read (h ++ l) a = read h a.
+  Proof. intros h l a L. unfold read. now apply app_nth1. Qed.
+
+  Lemma read_app_new : forall (h : heap) b, read (h ++ [b]) (length h) = b.
+  Proof. intros h b. unfold read. rewrite app_nth2; [|lia]. now rewrite Nat.sub_diag. Qed.
+
+  (** the three allocations of the copying constructor, spelled out *)
+  Lemma arith_copy_eq : forall (h : heap) s,
+    arith_copy op h s =
+    (((h ++ [op (read h (s_data s))]) ++ [read (h ++ [op (read h (s_data s))]) (length h)]) ++
+       [read ((h ++ [op (read h (s_data s))]) ++ [read (h ++ [op (read h (s_data s))]) (length h)]) (s_mask s)],
+     {| s_data := length (h ++ [op (read h (s_data s))]);
+        s_mask := length ((h ++ [op (read h (s_data s))]) ++ [read (h ++ [op (read h (s_data s))]) (length h)]) |}).
+  Proof. reflexivity. Qed.
+
+  (** copy protocol on BOTH buffers: every array that existed before the call is bit-for-bit what it was; the result's data
+      AND mask live at addresses that did not exist (so neither aliases anything, in particular not the operand's data or
+      mask); they hold op(data) and a copy of the mask *)
+  Theorem arith_copy_frames_both_buffers : forall (h : heap) s, s_data s < length h -> s_mask s < length h ->
+    let (h', r) := arith_copy op h s in
+    (forall a, a < length h -> read h' a = read h a) /\
+    length h <= s_data r /\ length h <= s_mask r /\ s_data r <> s_mask r /\
+    s_data r < length h' /\ s_mask r < length h' /\
+    read h' (s_data r) = op (read h (s_data s)) /\ read h' (s_mask r) = read h (s_mask s).
+  Proof.
+    intros h s Ld Lm. rewrite arith_copy_eq. cbn [s_data s_mask].
+    set (b1 := op (read h (s_data s))).
+    set (h1 := h ++ [b1]).
+    assert (L1 : length h1 = S (length h)) by (unfold h1; rewrite app_length; simpl; lia).
+    set (h2 := h1 ++ [read h1 (length h)]).
+    assert (L2 : length h2 = S (S (length h))) by (unfold h2; rewrite app_length; simpl; lia).
+    set (h3 := h2 ++ [read h2 (s_mask s)]).
+    assert (L3 : length h3 = S (S (S (length h)))) by (unfold h3; rewrite app_length; simpl; lia).
+    assert (R1 : read h1 (length h) = b1) by (unfold h1; apply read_app_new).
+    repeat split; try lia.
+    - intros a La. unfold h3, h2, h1. rewrite !read_app_old; try (rewrite ?app_length; simpl; lia). reflexivity.
+    - unfold h3. rewrite read_app_old by lia. unfold h2. rewrite L1. rewrite <- L1. rewrite read_app_new. exact R1.
+    - unfold h3. rewrite L2. rewrite <- L2. rewrite read_app_new. unfold h2, h1.
+      rewrite !read_app_old; try (rewrite ?app_length; simpl; lia). reflexivity.
+  Qed.
+
+  (** the frame property the history needs: after the call, a write through EITHER buffer of the result (fs.mask[i] = True,
+      mask_corners(), fs *= 2, ...) leaves every array that existed before the call - the operand's data and mask among
+      them - bit for bit unchanged, so every later computation on the operand (any function of its two buffers) returns
+      what it returned before *)
+  Theorem arith_copy_result_edit_frames_operand : forall (h : heap) s, s_data s < length h -> s_mask s < length h ->
+    let (h', r) := arith_copy op h s in
+    forall b, (forall a, a < length h -> read (write h' (s_mask r) b) a = read h a) /\
+              (forall a, a < length h -> read (write h' (s_data r) b) a = read h a).
+  Proof.
+    intros h s Ld Lm. pose proof (arith_copy_frames_both_buffers h s Ld Lm) as F.
+    destruct (arith_copy op h s) as [h' r]. destruct F as [F [Gd [Gm _]]].
+    intros b. split; intros a La; (rewrite read_write_other by lia); now apply F.
+  Qed.
+
+  Theorem arith_copy_later_results_unchanged : forall (O : Type) (obs : buffer -> buffer -> O) (h : heap) s,
+    s_data s < length h -> s_mask s < length h ->
+    let (h', r) := arith_copy op h s in
+    forall b, observe_spectrum obs (write h' (s_mask r) b) s = observe_spectrum obs h s /\
+              observe_spectrum obs (write h' (s_data r) b) s = observe_spectrum obs h s.
+  Proof.
+    intros O obs h s Ld Lm. pose proof (arith_copy_result_edit_frames_operand h s Ld Lm) as F.
+    destruct (arith_copy op h s) as [h' r]. intros b. destruct (F b) as [Fm Fd].
+    unfold observe_spectrum. rewrite (Fm _ Ld), (Fm _ Lm), (Fd _ Ld), (Fd _ Lm). split; reflexivity.
+  Qed.
+
+  (** the mirror: a later write through either buffer of the OPERAND leaves both buffers of the result unchanged *)
+  Theorem arith_copy_operand_edit_frames_result : forall (h : heap) s, s_data s < length h -> s_mask s < length h ->
+    let (h', r) := arith_copy op h s in
+    forall b, read (write h' (s_mask s) b) (s_mask r) = read h' (s_mask r) /\
+              read (write h' (s_mask s) b) (s_data r) = read h' (s_data r) /\
+              read (write h' (s_data s) b) (s_mask r) = read h' (s_mask r) /\
+              read (write h' (s_data s) b) (s_data r) = read h' (s_data r).
+  Proof.
+    intros h s Ld Lm. pose proof (arith_copy_frames_both_buffers h s Ld Lm) as F.
+    destruct (arith_copy op h s) as [h' r]. destruct F as [_ [Gd [Gm _]]].
+    intros b. repeat split; apply read_write_other; lia.
+  Qed.
+
+  (** copy=False: the data of the result is the (fresh) temporary, but its mask IS the operand's mask: a write through the
+      result's mask is read back through the operand's *)
+  Theorem arith_nocopy_shares_mask : forall (h : heap) s, s_data s < length h -> s_mask s < length h ->
+    let (h', r) := arith_nocopy op h s in
+    s_mask r = s_mask s /\ s_data r = length h /\ read h' (s_data r) = op (read h (s_data s)) /\
+    (forall a, a < length h -> read h' a = read h a) /\
+    forall b, read (write h' (s_mask r) b) (s_mask s) = b /\ read (write h' (s_mask s) b) (s_mask r) = b.
+  Proof.
+    intros h s Ld Lm. unfold arith_nocopy, alloc. cbn [s_data s_mask].
+    repeat split.
+    - apply read_app_new.
+    - intros a La. now apply read_app_old.
+    - apply read_write_same. rewrite app_length. simpl. lia.
+    - apply read_write_same. rewrite app_length. simpl. lia.
+  Qed.
+
+  (** both protocols return the same VALUES (which is why no test that looks at values of single calls can tell them apart) *)
+  Theorem arith_protocols_same_value : forall (h : heap) s, s_data s < length h -> s_mask s < length h ->
+    read (fst (arith_copy op h s)) (s_data (snd (arith_copy op h s))) =
+      read (fst (arith_nocopy op h s)) (s_data (snd (arith_nocopy op h s))) /\
+    read (fst (arith_copy op h s)) (s_mask (snd (arith_copy op h s))) =
+      read (fst (arith_nocopy op h s)) (s_mask (snd (arith_nocopy op h s))).
+  Proof.
+    intros h s Ld Lm.
+    pose proof (arith_copy_frames_both_buffers h s Ld Lm) as C. pose proof (arith_nocopy_shares_mask h s Ld Lm) as N.
+    destruct (arith_copy op h s) as [h1 r1]. destruct (arith_nocopy op h s) as [h2 r2]. cbn [fst snd].
+    destruct C as [_ [_ [_ [_ [_ [_ [Cd Cm]]]]]]]. destruct N as [Nm [_ [Nd [Nf _]]]].
+    split; [congruence|]. rewrite Cm, Nm. symmetry. now apply Nf.
+  Qed.
+
+  (** the general operator: a protocol whose constructor copies frames the operand against every later edit of the result *)
+  Theorem copying_arith_frames : forall pr (O : Type) (obs : buffer -> buffer -> O) (h : heap) s,
+    ctor_copies pr = true -> s_data s < length h -> s_mask s < length h ->
+    let (h', r) := arith op pr h s in
+    s_mask r <> s_mask s /\ s_mask r <> s_data s /\ s_data r <> s_data s /\ s_data r <> s_mask s /\
+    forall b, observe_spectrum obs (write h' (s_mask r) b) s = observe_spectrum obs h s /\
+              observe_spectrum obs (write h' (s_data r) b) s = observe_spectrum obs h s.
+  Proof.
+    intros pr O obs h s C Ld Lm. unfold arith. rewrite C.
+    pose proof (arith_copy_frames_both_buffers h s Ld Lm) as F.
+    pose proof (arith_copy_later_results_unchanged O obs h s Ld Lm) as G.
+    destruct (arith_copy op h s) as [h' r]. destruct F as [_ [Gd [Gm _]]].
+    repeat split; try lia; apply G.
+  Qed.
 End HeapProofs.
+
+(** copy=False violates "results are independent of what was done earlier to a DIFFERENT object": masking one entry of the
+    result changes fs.sum() of the operand *)
+Theorem arith_nocopy_refuted :
+  exists (op : list nat -> list nat) (h : heap nat) (s : spectrum) (b : list nat),
+    s_data s < length h /\ s_mask s < length h /\
+    let (h', r) := arith_nocopy op h s in
+    s_mask r = s_mask s /\
+    read (write h' (s_mask r) b) (s_mask s) <> read h (s_mask s) /\
+    observe_spectrum msum (write h' (s_mask r) b) s <> observe_spectrum msum h s.
+Proof.
+  exists (map (fun x => 2 * x)), [[3; 5; 7]; [1; 0; 0]], {| s_data := 0; s_mask := 1 |}, [1; 1; 0].
+  vm_compute. repeat split; try lia; discriminate.
+Qed.
+
+(** ... for EVERY heap and operand: whatever is written through the result's mask is what the operand's mask now holds *)
+Theorem arith_nocopy_aliases_always : forall (V : Type) (op : list V -> list V) (h : heap V) s b,
+  s_data s < length h -> s_mask s < length h -> b <> read h (s_mask s) ->
+  let (h', r) := arith_nocopy op h s in read (write h' (s_mask r) b) (s_mask s) <> read h (s_mask s).
+Proof.
+  intros V op h s b Ld Lm N. pose proof (arith_nocopy_shares_mask V op h s Ld Lm) as A.
+  destruct (arith_nocopy op h s) as [h' r]. destruct A as [_ [_ [_ [_ A]]]]. destruct (A b) as [A1 _]. now rewrite A1.
+Qed.
+
+(** the operator protocol is history-independent exactly when its constructor copies *)
+Theorem arith_frames_iff_copies : forall pr : arith_protocol,
+  (forall (h : heap nat) s b, s_data s < length h -> s_mask s < length h ->
+     let (h', r) := arith (map (fun x => 2 * x)) pr h s in
+     observe_spectrum msum (write h' (s_mask r) b) s = observe_spectrum msum h s) <-> ctor_copies pr = true.
+Proof.
+  intros [c]. split.
+  - intros H. destruct c; [reflexivity|]. exfalso.
+    specialize (H [[3; 5; 7]; [1; 0; 0]] {| s_data := 0; s_mask := 1 |} [1; 1; 0]).
+    assert (L : 0 < 2) by lia. assert (L' : 1 < 2) by lia. specialize (H L L'). vm_compute in H. discriminate.
+  - intros C h s b Ld Lm.
+    pose proof (copying_arith_frames nat (map (fun x => 2 * x)) {| ctor_copies := c |} nat msum h s C Ld Lm) as F.
+    destruct (arith (map (fun x => 2 * x)) {| ctor_copies := c |} h s) as [h' r]. apply F.
+Qed.
 
 (** the in-place protocol violates "argument unchanged, result fresh" *)
 Theorem inplace_protocol_aliases_refuted :
